@@ -30,7 +30,7 @@ def run(ctx):
         "crash model of the property: the file holds a prefix of the engine's own operation log plus a byte prefix of the write in flight; a completed fsync makes everything before it durable; no reordering of unsynced writes",
         "the recovery script runs for every operation boundary, every byte length of a torn block header and the first / middle / last materialised offset of every other torn write; all other offsets are loaded only",
         "as built, a load behind appended garbage takes arbitrary bytes for a block header and allocates up to 4 GiB: when the harness sees such a header it runs the real load in a child process limited to 1.5 GiB of address space and counts its out-of-memory death as a failed load",
-        "histories with inline compaction (>= 100 entries) are not cut (compaction is C03)",
+        "compaction itself is not modelled (C03 decides its crash atomicity): cuts inside a compaction must show the unchanged logical state; they are taken as log prefixes and as power-loss images (per file only the bytes present at its last fsync; create/rename/remove in log order)",
     ]
     binary = ctx.go_build("hydfile")
     counters = {}
@@ -65,6 +65,11 @@ def run(ctx):
         cfgs = [dict(seed=ctx.seed * 7919 + i, mode="crash", level="fw" if i % 2 == 0 else "ch", count=(4 if thorough else 1),
                      maxops=(14 if thorough else 7), bad=0, maxall=(4096 if thorough and i < 2 else 64 if thorough else 6),
                      idbase=i * 1000) for i in range(nproc)]
+
+    if not ctx.replay:
+        # the compaction path: a chronicler history that reaches the inline compaction; cuts inside the compaction
+        # (temporary file, rename) as log prefixes AND as power loss (unsynced bytes of every file dropped)
+        cfgs.append(dict(seed=ctx.seed, mode="crash", compact=True, count=1, maxall=6, idbase=900))
 
     # 2. every cut of the real operation log, materialised, loaded, recovered: several driver processes in parallel
     def one(i_cfg):
